@@ -15,6 +15,11 @@ Time: a clock client lets time pass (1 s ... 10 years) between any two primitive
 dict backends: the fake redis server's clock is advanced (keys with a time to live expire as in redis), time() as seen
 by file_store and by the client threads moves on; the model's PTick is the identity (C04_time_does_not_unlock), the tie
 compares, the direct oracle reports e.g. "two holders after time passed".  (Keep-alive locks: frozen clock here; C19.)
+Persistence: the environment client can also close and reopen the store between any two primitives (dict_store with a
+backing file: close() + a new dict_store(FILE); file stores: a new store object; redis: new connections) - in the model
+PReopen is the identity on the lock state (C04_reopen_keeps_lock_state); plus sequential scenarios through the store
+objects: is_locked / is_failed / listlocks before = after every reopen, get() refused on held / failed names,
+remove_locks() frees them.
 Keep-alive backend with its helper process (Props/C04.v: C04_keepalive_failed_is_sticky_against_the_helper, over
 Model/Keepalive.v): in the lock-step runs above the helper is not started; the one operation it can interfere with,
 the holder's fail() = stop the helper ; write the failed stamp, is driven by harness/c19.py's simulation (REAL lock
@@ -77,12 +82,17 @@ def is_tick(op):
     return op.startswith('tick:')
 
 
+def is_env(op):
+    """a step of the environment client: time passes / the store is closed and opened again"""
+    return op == 'reopen' or is_tick(op)
+
+
 def tick_secs(op):
     return int(op[5:])
 
 
 def op_coq(op):
-    return '(OTick %s)' % zlit(tick_secs(op)) if is_tick(op) else OP_COQ[op]
+    return '(OTick %s)' % zlit(tick_secs(op)) if is_tick(op) else 'OReopen' if op == 'reopen' else OP_COQ[op]
 STEP_TIMEOUT = 20.0
 
 IMPORTS = 'From JugV Require Import Model.LockPrims.\nFrom JugV Require Gen.LockConsts.'
@@ -303,10 +313,12 @@ class World:
         self.to_sched = Signal()
         self.clients = [Client(i, p) for i, p in enumerate(plans)]
         self.elapsed = 0
-        self.ticks = list(ticks or []) if backend != 'keep' else []
+        # steps of the environment: seconds that pass (not on the keep-alive backend: frozen clock) / 'reopen'
+        self.ticks = [d for d in (ticks or []) if d == 'reopen' or backend != 'keep']
         self.clock = None
-        if self.ticks:      # the clock client: its steps are taken by the scheduler itself (no thread)
-            self.clock = Client(len(self.clients), [('tick:%d' % d, 0) for d in self.ticks])
+        self.root = root
+        if self.ticks:      # the environment client: its steps are taken by the scheduler itself (no thread)
+            self.clock = Client(len(self.clients), [('reopen' if d == 'reopen' else 'tick:%d' % d, 0) for d in self.ticks])
             self.clients.append(self.clock)
         self.ghost = {i: ('free',) for i in range(nnames)}
         self.events = []        # (cid, op, name, primdesc, resp, ret-or-None)
@@ -323,23 +335,38 @@ class World:
                 os.makedirs(self.lockdir)
             elif os.listdir(self.lockdir):
                 raise HarnessError('lock directory is not empty at the start of a run')
-            cls = fs.file_based_lock if backend == 'file' else fs.file_keepalive_based_lock
-            for cl in self.clients:
-                cl.locks = {i: cls(self.jugdir, lock_name(i)) for i in range(nnames)}
         elif backend == 'redis':
             self.server = fakeredis.FakeServer()
             self.server.hook = self.redis_hook
-            for cl in self.clients:
-                conn = self.server.client(cl.cid)
-                cl.locks = {i: rs.redis_lock(conn, lock_name(i)) for i in range(nnames)}
         elif backend == 'dict':
-            import collections
-            self.dstore = {}
-            counts = collections.defaultdict(int)
-            for cl in self.clients:
-                cl.locks = {i: ds.dict_lock(self.dstore, counts, lock_name(i)) for i in range(nnames)}
+            self.dfile = os.path.join(root, 'dict_store.pickle')      # dict_store with a backing file
+            if os.path.exists(self.dfile):
+                raise HarnessError('backing file of the dict store exists at the start of a run')
         else:
             raise ValueError(backend)
+        self.store_obj = None
+        self.open_store()
+
+    def open_store(self):
+        """(re)open the store: a new store object on the same directory / backing file / server, and fresh lock
+        handles for every client.  Operations already under way keep the handle they started with (file, redis)."""
+        nn = range(self.nnames)
+        workers = [cl for cl in self.clients if cl is not self.clock]
+        if self.backend in ('file', 'keep'):
+            self.store_obj = fs.file_store(self.jugdir) if self.backend == 'file' else fs.file_keepalive_store(self.jugdir)
+            for cl in workers:
+                cl.locks = {i: self.store_obj.getlock(lock_name(i)) for i in nn}
+        elif self.backend == 'redis':
+            for cl in workers:
+                conn = self.server.client(cl.cid)           # a new connection
+                cl.locks = {i: rs.redis_lock(conn, lock_name(i)) for i in nn}
+        else:
+            if self.store_obj is not None:
+                self.store_obj.close()                      # writes the backing file
+            self.store_obj = ds.dict_store(self.dfile)      # loads it (a missing file: empty store)
+            self.dstore = self.store_obj.store
+            for cl in workers:
+                cl.locks = {i: self.store_obj.getlock(lock_name(i)) for i in nn}
 
     # ---- client side ---------------------------------------------------------------------------
     def park(self, cid, desc):
@@ -370,6 +397,7 @@ class World:
             try:
                 if self.backend == 'dict':
                     self.park(cl.cid, ('dict', op, n))
+                    lock = cl.locks[n]          # (the store may have been reopened meanwhile: dict_lock methods are atomic)
                 r = getattr(lock, op)()
                 if op == 'get' and r is True and self.backend in ('file', 'keep'):
                     # creation time on the simulated clock (the write of the PID line set the real one)
@@ -435,8 +463,16 @@ class World:
         """time passes: the server clock of the fake redis moves on, so does time() for file_store / the clients"""
         cl = self.clients[cid]
         op, n = cl.plan.pop(0)
-        d = tick_secs(op)
         cl.executed.append((op, n))
+        if op == 'reopen':
+            try:
+                self.open_store()
+                self.events.append((cid, op, n, ('reopen',), ('ok', None), ('ret', None)))
+            except Exception as e:
+                self.events.append((cid, op, n, ('reopen',), ('exc', type(e).__name__, isinstance(e, OSError), False), ('exc', type(e).__name__)))
+            self.sched.append(cid)
+            return True
+        d = tick_secs(op)
         self.elapsed += d
         if self.server is not None:
             self.server.advance(d)
@@ -552,6 +588,11 @@ def run_world(backend, plans, nnames, root, k, chooser, wild=False, max_steps=40
             if w.lockdir is not None:
                 for f in os.listdir(w.lockdir):
                     os.unlink(os.path.join(w.lockdir, f))
+            if getattr(w, 'dfile', None) is not None:
+                if getattr(w, 'store_obj', None) is not None:
+                    w.store_obj.backend = None          # nothing is written when the object is collected
+                if os.path.exists(w.dfile):
+                    os.unlink(w.dfile)
     return w
 
 
@@ -585,6 +626,8 @@ def render_prim(w, desc, resp):
         return 'RB %s' % boollit(b)
     if kind == 'tick':
         return 'PTick %s' % zlit(desc[1]), 'RU'
+    if kind == 'reopen':
+        return 'PReopen', ('RU' if resp is not None and resp[0] == 'ok' else 'RE')
     if kind == 'dict':
         r = canon_ret(resp)
         return 'DOp %s %d' % (OP_COQ[desc[1]], desc[2]), {'T': rb(True), 'F': rb(False), 'U': 'RU', 'E': 'RE', None: 'RE'}[r]
@@ -654,8 +697,8 @@ def spec_apply(state, op, c):
         return state, ('F' if state == ('free',) else 'T')
     if op == 'is_failed':
         return state, ('T' if state == ('failed',) else 'F')
-    if is_tick(op):
-        return state, 'U'          # time passes: nothing changes
+    if is_env(op):
+        return state, 'U'          # time passes / the store is reopened: nothing changes
     raise ValueError(op)
 
 
@@ -697,6 +740,14 @@ def linearizable(ops):
     return go(frozenset(range(n)), ('free',))
 
 
+def env_note(passed, reopened):
+    """(suffix of the violation class, remark) for what the environment did in between"""
+    suffix = (' after time passed' if passed else '') + (' after a reopen' if reopened else '')
+    notes = (['%d s passed in between' % passed] if passed else []) + \
+            (['the store was closed and opened again %d time(s) in between' % reopened] if reopened else [])
+    return suffix, (' (%s)' % '; '.join(notes) if notes else '')
+
+
 def clause_violations(w):
     """the clauses of the property on the recorded events (same reading as Props/C04.v)"""
     bad = []
@@ -706,17 +757,18 @@ def clause_violations(w):
         if r == 'E':
             bad.append(('operation raised', '%s() of client %d on %s raised %s' % (op, cid, lock_name(n), ret[1])))
         if op == 'get' and r == 'T':
-            passed = 0
+            passed = reopened = 0
             for j in range(i + 1, len(ev)):
                 c2, op2, n2, _, _, ret2 = ev[j]
-                if is_tick(op2):
-                    passed += tick_secs(op2)
+                if is_env(op2):
+                    passed += tick_secs(op2) if is_tick(op2) else 0
+                    reopened += op2 == 'reopen'
                     continue
                 if n2 != n:
                     continue
                 if c2 == cid and op2 in ('release', 'fail'):
                     break
-                when = (' after time passed', ' (%d s passed in between)' % passed) if passed else ('', '')
+                when = env_note(passed, reopened)
                 if op2 == 'get' and canon_ret(ret2) == 'T':
                     bad.append(('two holders' + when[0], 'get() of client %d on %s returned True at step %d while client %d holds it since step %d%s'
                                 % (c2, lock_name(n), j, cid, i, when[1])))
@@ -726,11 +778,12 @@ def clause_violations(w):
                                 'holds it since step %d%s' % (c2, lock_name(n), j, cid, i, when[1])))
                     break
         if op == 'fail' and r == 'T':
-            passed = 0
+            passed = reopened = 0
             for j in range(i + 1, len(ev)):
                 c2, op2, n2, _, _, ret2 = ev[j]
-                if is_tick(op2):
-                    passed += tick_secs(op2)
+                if is_env(op2):
+                    passed += tick_secs(op2) if is_tick(op2) else 0
+                    reopened += op2 == 'reopen'
                     continue
                 if n2 != n:
                     continue
@@ -741,10 +794,10 @@ def clause_violations(w):
                     continue
                 want = {'get': 'F', 'is_locked': 'T', 'is_failed': 'T', 'fail': 'T'}[op2]
                 if r2 != want:
-                    bad.append(('failed lock not sticky' + (' after time passed' if passed else ''),
+                    when = env_note(passed, reopened)
+                    bad.append(('failed lock not sticky' + when[0],
                                 '%s() of client %d on %s returned %s at step %d after fail() returned True at step %d '
-                                'and before any release()%s' % (op2, c2, lock_name(n), r2, j, i,
-                                                                 ' (%d s passed in between)' % passed if passed else '')))
+                                'and before any release()%s' % (op2, c2, lock_name(n), r2, j, i, when[1])))
                     break
         if op == 'release':
             for j in range(i + 1, len(ev)):
@@ -839,6 +892,12 @@ TRIPLES = [
 ]
 QUADS = [[[G, F], [G], [A, R], [G, A]]]        # the scenario of D14: cleanup and a new holder fall into get()'s window
 # (plans, seconds the clock client lets pass): all positions of the time steps between the primitives of the others
+# (plans, steps of the environment): the store is closed and opened again between any two primitives (every backend)
+RO = 'reopen'
+REOPENSETS = [
+    ([[G], [G]], [RO]), ([[G, F], [G, A]], [RO]), ([[G, L], [L, G]], [RO]), ([[G, F], [A, R, G]], [RO]),
+    ([[G, R], [G]], [RO]), ([[G, F], [L, A]], [RO, RO]), ([[G], [L, G]], [RO, 8 * 86400]),
+]
 TICKSETS = [
     ([[G], [G]], [10 * 365 * 86400]), ([[G, L], [L, G]], [2 * 86400]), ([[G, F], [G, A]], [8 * 86400]),
     ([[G, R], [G]], [8 * 86400]), ([[G, F], [A, R, G]], [10 * 365 * 86400]), ([[G], [L, G]], [3600, 8 * 86400]),
@@ -914,7 +973,9 @@ def judge(ck, w, plans, cases, meta, source):
     ck.count('operations', sum(len(cl.executed) for cl in w.clients))
     ck.count('well-formed' if w.all_wf else 'not-well-formed(tie only)')
     for e in w.events:
-        if is_tick(e[1]):
+        if e[1] == 'reopen':
+            ck.count('reopen:' + w.backend)
+        elif is_tick(e[1]):
             ck.count('time passes:%s' % ('<=1h' if tick_secs(e[1]) <= 3600 else '<=8d' if tick_secs(e[1]) <= 8 * 86400 else '10y'))
         elif e[5] is not None:
             ck.count('op:%s=%s' % (e[1], canon_ret(e[5])))
@@ -957,6 +1018,8 @@ def run(ck):
     try:
         with jugrun.scratch_dir('jugv04') as root:
             k = 0
+            # ---- lock state across close / reopen, sequentially through the store objects
+            reopen_section(ck, root)
             # ---- exhaustive interleavings of small plans
             solo = SOLO_FULL if thorough else SOLO_QUICK
             plansets = [[a, b] for a in solo for b in solo]
@@ -972,6 +1035,14 @@ def run(ck):
                         ck.count('exhaustive:complete-plan-sets')
                     for w in runs:
                         judge(ck, w, plans, cases, meta, 'exhaustive')
+            # ---- the store is closed and opened again between any two primitives (every backend)
+            for plans, env in REOPENSETS:
+                for backend in BACKENDS:
+                    runs, trunc = enumerate_schedules(backend, plans, 1, root, k, ck.n(15, 4000), ck.rng, ticks=env)
+                    k += len(runs) + 1
+                    ck.count('exhaustive:truncated-plan-sets' if trunc else 'exhaustive:complete-plan-sets')
+                    for w in runs:
+                        judge(ck, w, plans, cases, meta, 'exhaustive+reopen')
             # ---- the same with time passing between any two primitives (file, redis, dict)
             for plans, ticks in TICKSETS:
                 for backend in BACKENDS:
@@ -988,7 +1059,7 @@ def run(ck):
                 plans, nnames = gen_plans(ck.rng)
                 backend = BACKENDS[i % 4]
                 wild = ck.rng.random() < 0.12
-                ticks = [ck.rng.choice(TICKS) for _ in range(ck.rng.choice([0, 0, 1, 1, 2]))] if backend != 'keep' else None
+                ticks = [ck.rng.choice(TICKS + (RO, RO, RO)) for _ in range(ck.rng.choice([0, 0, 1, 1, 2]))]
                 w = run_world(backend, plans, nnames, root, k, random_chooser(ck.rng), wild=wild, ticks=ticks)
                 k += 1
                 judge(ck, w, plans, cases, meta, 'random-wild' if wild else 'random')
@@ -1005,6 +1076,122 @@ def run(ck):
         w, plans = meta[i]
         ck.violation(replay_obj(w, plans, {'kind': 'correspondence', 'what': what_for_tie(w), 'coq_case': cases[i]}))
     keepalive_helper_section(ck)
+
+
+# ------------------------------------------------------------------------------------------------
+# lock state across a reopen, sequentially, through the STORE objects (listlocks, remove_locks included)
+RSTATES = ('free', 'held', 'failed', 'released', 'failed-released')
+R_EXPECT = {'free': (False, False), 'held': (True, False), 'failed': (True, True), 'released': (False, False),
+            'failed-released': (False, False)}
+
+
+def run_reopen_scenario(scn, root):
+    """scn = {'backend', 'states': [state of name i], 'reopens': k}.  Puts every name into its state through one store
+    object, closes / reopens the store k times and compares what a fresh store object reports with what was reported
+    before; then get() on every name, another reopen, remove_locks(), get() again.  -> list of problems (strings)"""
+    import shutil
+    backend, states = scn['backend'], scn['states']
+    names = [lock_name(i) for i in range(len(states))]
+    problems = []
+    base = os.path.join(root, 'reopen')
+    os.makedirs(base)
+    server = None
+    try:
+        if backend in ('file', 'keep'):
+            jd = os.path.join(base, 'jd')
+            mk = (lambda: fs.file_store(jd)) if backend == 'file' else (lambda: fs.file_keepalive_store(jd))
+        elif backend == 'redis':
+            server = fakeredis.FakeServer()
+            fakeredis.install(server)
+            mk = lambda: rs.redis_store('redis://localhost/')
+        else:
+            dfile = os.path.join(base, 'store.pickle')
+            mk = lambda: ds.dict_store(dfile)
+        box = [mk()]
+
+        def reopen():
+            box[0].close()
+            box[0] = mk()
+
+        def answers():
+            st = box[0]
+            out = {}
+            for nm in names:
+                lk = st.getlock(nm)
+                out[nm] = (bool(lk.is_locked()), bool(lk.is_failed()))
+            listed = sorted((x.decode('utf-8') if isinstance(x, bytes) else str(x)) for x in st.listlocks())
+            return out, listed
+
+        def show(a):
+            return ', '.join('%s: locked=%s failed=%s' % (nm, a[0][nm][0], a[0][nm][1]) for nm in names) + '; listlocks() = %s' % (a[1],)
+        for nm, state in zip(names, states):
+            lk = box[0].getlock(nm)
+            if state != 'free' and lk.get() is not True:
+                problems.append('get() on the fresh name %s did not return True' % nm)
+            if state.startswith('failed') and lk.fail() is not True:
+                problems.append('fail() on the held lock %s did not return True' % nm)
+            if state.endswith('released'):
+                lk.release()
+        before = answers()
+        want = ({nm: R_EXPECT[st_] for nm, st_ in zip(names, states)}, sorted(nm for nm, st_ in zip(names, states) if R_EXPECT[st_][0]))
+        if before != want:
+            problems.append('before any reopen the store reports %s, expected %s' % (show(before), show(want)))
+        for r in range(scn['reopens']):
+            reopen()
+            after = answers()
+            if after != before:
+                problems.append('lock state changed across reopen %d: before: %s / after: %s' % (r + 1, show(before), show(after)))
+        # get() through handles of the reopened store: refused on held / failed names, granted on free ones
+        for nm in names:
+            got = box[0].getlock(nm).get()
+            if bool(got) != (not before[0][nm][0]):
+                problems.append('after the reopen get() on %s (locked=%s failed=%s before the reopen) returned %r'
+                                % (nm, before[0][nm][0], before[0][nm][1], got))
+        mid = answers()
+        reopen()
+        if answers() != mid:
+            problems.append('lock state changed across the reopen after the get() round: before: %s / after: %s' % (show(mid), show(answers())))
+        # remove_locks() (cleanup --locks-only: the way to clear what crashed holders left) frees every name
+        box[0].remove_locks()
+        freed = answers()
+        if any(v[0] or v[1] for v in freed[0].values()) or freed[1]:
+            problems.append('after remove_locks(): %s' % show(freed))
+        for nm in names:
+            if box[0].getlock(nm).get() is not True:
+                problems.append('after remove_locks() get() on %s did not return True' % nm)
+        box[0].remove_locks()
+        box[0].close()
+    except Exception as e:
+        problems.append('raised %s: %s' % (type(e).__name__, e))
+    finally:
+        if server is not None:
+            fakeredis.uninstall()
+        shutil.rmtree(base, ignore_errors=True)
+    return problems
+
+
+def reopen_section(ck, root):
+    """called with the interposer installed and no active world (FakePopen stands for the keep-alive helper)"""
+    t0 = _time.time()
+    scns = []
+    for backend in BACKENDS:
+        scns.append({'backend': backend, 'states': ['held', 'failed', 'free', 'released', 'failed-released'], 'reopens': 1})
+        scns.append({'backend': backend, 'states': ['failed', 'held'], 'reopens': 2})
+        for _ in range(ck.n(3, 60)):
+            scns.append({'backend': backend, 'states': [ck.rng.choice(RSTATES) for _ in range(ck.rng.randint(1, 5))],
+                         'reopens': ck.rng.choice([1, 1, 2, 3])})
+    for scn in scns:
+        problems = run_reopen_scenario(scn, root)
+        ck.count('reopen (sequential, through the store object):' + scn['backend'])
+        ck.distinct(('reopen', scn['backend'], scn['states'], scn['reopens']), any(s_ in ('held', 'failed') for s_ in scn['states']))
+        if problems:
+            ck.violation({'kind': 'impl-violation', 'what': 'lock state lost across a reopen (%s store)' % scn['backend'],
+                          'detail': problems[0], 'problems': problems, 'reopen_scenario': scn,
+                          'how_to_run': 'bin/check C04 --replay <this file>'})
+    ck.obligations.append({'name': 'lock state across close / reopen of the store object, listlocks, remove_locks (%d sequential scenarios, '
+                                   '4 backends)' % len(scns), 'kind': 'test', 'ok': not any(w.startswith('lock state lost') for w in ck.viol_by_what),
+                           'msg': ''})
+    ck.count('seconds:reopen scenarios', round(_time.time() - t0))
 
 
 def keepalive_helper_section(ck):
@@ -1040,6 +1227,20 @@ def replay(obj):
     """Re-execute one recorded run (plans + schedule) against /repo."""
     if obj.get('keepalive_scenario'):
         return c19.replay(obj, prop='C04')
+    if obj.get('reopen_scenario'):
+        IP.install()
+        try:
+            with jugrun.scratch_dir('jugv04r') as root:
+                problems = run_reopen_scenario(obj['reopen_scenario'], root)
+        finally:
+            IP.uninstall()
+        print('store: %(backend)s; names n0.. put into the states %(states)s; then %(reopens)d x close + reopen, get() on every name, '
+              'reopen, remove_locks(), get() on every name' % obj['reopen_scenario'])
+        for pr in problems:
+            print('VIOLATED:', pr)
+        print('expected: is_locked / is_failed / listlocks answer the same before and after every reopen; get() is refused on held and '
+              'failed names; remove_locks() frees them')
+        return 1 if problems else 0
     if not obj.get('plans'):
         print('replay: nothing to re-execute (%s)' % obj.get('kind'))
         for b in obj.get('no_longer_checks', []):
@@ -1055,7 +1256,8 @@ def replay(obj):
         IP.uninstall()
     print('backend: %s lock; %d clients; plans %s' % (w.backend, len(plans), obj['plans']))
     if w.ticks:
-        print('client %d is the clock: it lets %s seconds pass' % (w.clock.cid, w.ticks))
+        print('client %d is the environment: its steps (seconds that pass / reopen = the store is closed and opened again): %s'
+              % (w.clock.cid, w.ticks))
     print('schedule (client of every primitive step):', w.sched)
     for i, e in enumerate(w.events):
         j = event_json(e)
